@@ -873,6 +873,23 @@ Proof.
   - rewrite (dget_notin (g h) o); [now apply IH|]. rewrite Hg. intros X. apply (Hdis o X). apply in_flat_map. eauto.
 Qed.
 
+Lemma den_entries_get D (L : list mfunc) f o : In f L -> In o (fouts f) ->
+  dict_get (flat_map (den_entries D) L) o = Some (dval D o).
+Proof.
+  intros Hf Ho.
+  assert (G : forall l, (exists v, In (o, v) l) -> (forall v, In (o, v) l -> v = dval D o) -> dict_get l o = Some (dval D o)).
+  { induction l as [|[k v] l IH]; intros [v0 Hex] Hall; [destruct Hex|]. cbn.
+    destruct (str_eqb o k) eqn:E.
+    - apply str_eqb_eq in E. subst k. f_equal. apply Hall. left. reflexivity.
+    - apply IH.
+      + destruct Hex as [Hex|Hex]; [injection Hex as <- _; now rewrite str_eqb_refl in E | eauto].
+      + intros v1 Hv1. apply Hall. right. exact Hv1. }
+  apply G.
+  - exists (dval D o). apply in_flat_map. exists f. split; [exact Hf|]. unfold den_entries. apply in_map_iff. exists o. auto.
+  - intros v Hv. apply in_flat_map in Hv as [g [_ Hv]]. unfold den_entries in Hv. apply in_map_iff in Hv as [o' [E _]].
+    now injection E as <- <-.
+Qed.
+
 (* MAIN: a full run on any sub-store of the denoted store completes, returns the denoted arrays and ends with the
    denoted store; the hypotheses are C01's (request_ok, defined denotation, body_arity) plus the order conditions
    that pipefunc's topological generations satisfy *)
@@ -881,13 +898,12 @@ Theorem run_from_substore_denotes body user p inputs D rs :
   request_ok p inputs = true -> denote_run body p inputs user = Ok D ->
   topo_list p -> producers_before p [] (generations p) ->
   (forall f, In f p -> In f (concat (generations p))) ->
-  NoDup (flat_map fouts (concat (generations p))) ->
   (forall g, In g p -> fsub body p inputs D rs g) ->
   exists ps, map_run_sel body p inputs user None rs = ROk ps
     /\ (forall f, In f p -> ffull body p inputs D (p_store ps) f)
     /\ (forall f o, In f p -> In o (fouts f) -> dict_get (p_out ps) o = dict_get (d_out D) o).
 Proof.
-  intros Harity Hreq Hden Htopo Hpb Hall Hndg Hsub.
+  intros Harity Hreq Hden Htopo Hpb Hall Hsub.
   unfold request_ok in Hreq. apply andb_true_iff in Hreq as [Hreq _]. apply andb_true_iff in Hreq as [Hok Hnd].
   apply nodup_str_NoDup in Hnd. destruct (NoDup_app_inv _ _ Hnd) as [Hndo [_ Hdisj]].
   unfold denote_run in Hden.
@@ -909,16 +925,9 @@ Proof.
   - intros g [].
   - exact Hpb.
   - exists ps. split; [exact E1|]. cbn [app p_out] in E2, E3. split; [intros f Hf; apply E3; now apply Hall|].
-    intros f o Hf Ho. rewrite E2.
-    rewrite (dget_flat_entries (den_entries D) (concat (generations p))) with (f := f);
-      [ | intros h; unfold den_entries; rewrite map_map; cbn; apply map_id | exact Hndg | now apply Hall | exact Ho].
-    (* the denoted entry *)
-    unfold den_entries. apply In_nth_error in Ho as [j Hj].
-    assert (E : dict_get (map (fun o0 => (o0, dval D o0)) (fouts f)) o = Some (dval D o)).
-    { clear - Hj. revert j Hj. induction (fouts f) as [|x l IH]; intros [|j] Hj; cbn in *; try discriminate.
-      - injection Hj as ->. now rewrite str_eqb_refl.
-      - destruct (str_eqb o x) eqn:Ex; [apply str_eqb_eq in Ex; now subst | eapply IH; eauto]. }
-    rewrite E. destruct (HD f Hf) as [kw [_ H]]. unfold dval. destruct (is_mapped f).
+    intros f o Hf Ho. rewrite E2. rewrite (den_entries_get D (concat (generations p)) f o (Hall f Hf) Ho).
+    apply In_nth_error in Ho as [j Hj].
+    destruct (HD f Hf) as [kw [_ H]]. unfold dval. destruct (is_mapped f).
     + destruct H as [ms [sh [mask [arrs [_ [_ [_ [_ [_ [_ A7]]]]]]]]]]. destruct (A7 j o Hj) as [_ [a [_ [_ B]]]]. now rewrite B.
     + destruct H as [outs [_ [_ A3]]]. destruct (A3 j o Hj) as [v [_ [_ B]]]. now rewrite B.
 Qed.
@@ -942,7 +951,6 @@ Theorem map_run_sel_empty_is_map_run body user p inputs D :
   request_ok p inputs = true -> denote_run body p inputs user = Ok D ->
   topo_list p -> producers_before p [] (generations p) ->
   (forall f, In f p -> In f (concat (generations p))) ->
-  NoDup (flat_map fouts (concat (generations p))) ->
   exists st ps,
     map_run body p inputs user = Ok st
     /\ map_run_sel body p inputs user None empty_store = ROk ps
@@ -951,9 +959,127 @@ Theorem map_run_sel_empty_is_map_run body user p inputs D :
     /\ (forall f o, In f p -> In o (fouts f) -> dict_get (p_out ps) o = dict_get (d_out D) o)
     /\ (forall f, In f p -> ffull body p inputs D (p_store ps) f).
 Proof.
-  intros Harity Hreq Hden Htopo Hpb Hall Hndg.
+  intros Harity Hreq Hden Htopo Hpb Hall.
   destruct (map_run_denotes body Harity user p inputs D Hreq Hden) as [st [R1 [R2 R3]]].
-  destruct (run_from_substore_denotes body user p inputs D empty_store Harity Hreq Hden Htopo Hpb Hall Hndg
+  destruct (run_from_substore_denotes body user p inputs D empty_store Harity Hreq Hden Htopo Hpb Hall
               (fun g _ => fsub_empty body p inputs D g)) as [ps [S1 [S2 S3]]].
   exists st, ps. auto 10.
+Qed.
+
+(* ------------------------------------------------------------------ decidable order conditions *)
+Definition indepb (g f : mfunc) : bool := forallb (fun o => negb (mem_str o (fparams f))) (fouts g).
+Lemma indepb_ok g f : indepb g f = true -> indep_fn g f.
+Proof.
+  unfold indepb, indep_fn. rewrite forallb_forall. intros H o Ho X. specialize (H o Ho).
+  apply Bool.negb_true_iff, mem_str_false in H. contradiction.
+Qed.
+
+Fixpoint topo_listb (p : list mfunc) : bool :=
+  match p with
+  | [] => true
+  | f :: rest => indepb f f
+                 && forallb (fun g => indepb g f && forallb (fun o => negb (mem_str o (fouts f))) (fouts g)) rest
+                 && topo_listb rest
+  end.
+Lemma topo_listb_ok p : topo_listb p = true -> topo_list p.
+Proof.
+  induction p as [|f rest IH]; cbn; [auto|]. intros H. apply andb_true_iff in H as [H H3]. apply andb_true_iff in H as [H1 H2].
+  split; [now apply indepb_ok|]. split; [|now apply IH].
+  rewrite forallb_forall in H2. intros g Hg. specialize (H2 g Hg). apply andb_true_iff in H2 as [A B].
+  split; [now apply indepb_ok|]. rewrite forallb_forall in B. intros o Ho X. specialize (B o Ho).
+  apply Bool.negb_true_iff, mem_str_false in B. contradiction.
+Qed.
+
+(* every parameter that some function produces is produced in an earlier generation (by names) *)
+Fixpoint producers_beforeb (p : list mfunc) (names : list str) (gens : list (list mfunc)) : bool :=
+  match gens with
+  | [] => true
+  | gen :: rest =>
+      forallb (fun f => forallb (fun q => match producer p q with Some _ => mem_str q names | None => true end) (fparams f)) gen
+      && producers_beforeb p (names ++ flat_map fouts gen) rest
+  end.
+Lemma producers_beforeb_ok p gens : forall before,
+  (forall g f o, In g p -> In f p -> In o (fouts g) -> In o (fouts f) -> g = f) ->
+  (forall g, In g before -> In g p) -> (forall gen f, In gen gens -> In f gen -> In f p) ->
+  producers_beforeb p (flat_map fouts before) gens = true -> producers_before p before gens.
+Proof.
+  induction gens as [|gen rest IH]; intros before Huniq Hb Hg H; cbn in *; [exact I|].
+  apply andb_true_iff in H as [H1 H2]. split.
+  - intros f q g Hf Hq Hp. rewrite forallb_forall in H1. specialize (H1 f Hf). rewrite forallb_forall in H1.
+    specialize (H1 q Hq). rewrite Hp in H1. apply mem_str_In in H1. apply in_flat_map in H1 as [h [Hh Hqh]].
+    destruct (producer_Some _ _ _ Hp) as [Hgp Hqg]. rewrite (Huniq g h q Hgp (Hb h Hh) Hqg Hqh). exact Hh.
+  - apply IH; [exact Huniq | | |].
+    + intros g Hgg. apply in_app_or in Hgg as [X|X]; [now apply Hb | apply (Hg gen g (or_introl eq_refl) X)].
+    + intros g f Hgg Hf. apply (Hg g f (or_intror Hgg) Hf).
+    + now rewrite flat_map_app.
+Qed.
+
+(* every function is in some generation when its level is in range *)
+Definition levels_okb (p : list mfunc) : bool :=
+  let lv := levels p in
+  let top := fold_right Nat.max 0 (map snd lv) in
+  forallb (fun f => (1 <=? level_of lv f) && (level_of lv f <=? top)) p.
+Lemma levels_okb_ok p : levels_okb p = true -> forall f, In f p -> In f (concat (generations p)).
+Proof.
+  unfold levels_okb, generations. cbv zeta. rewrite forallb_forall. intros H f Hf. specialize (H f Hf).
+  apply andb_true_iff in H as [H1 H2]. apply Nat.leb_le in H1, H2.
+  set (lv := levels p) in *. set (top := fold_right Nat.max 0 (map snd lv)) in *.
+  apply in_concat. exists (filter (fun f0 => level_of lv f0 =? level_of lv f) p). split.
+  - apply filter_In. split.
+    + apply in_map_iff. exists (level_of lv f). split; [reflexivity|]. apply in_seq. lia.
+    + destruct (filter (fun f0 => level_of lv f0 =? level_of lv f) p) eqn:E; [|reflexivity].
+      exfalso. assert (X : In f (filter (fun f0 => level_of lv f0 =? level_of lv f) p))
+        by (apply filter_In; split; [exact Hf | apply Nat.eqb_refl]). rewrite E in X. destruct X.
+  - apply filter_In. split; [exact Hf | apply Nat.eqb_refl].
+Qed.
+
+(* the order conditions in one decidable predicate; pipefunc's topological generations satisfy it *)
+Definition pipeline_order_ok (p : list mfunc) : bool :=
+  topo_listb p && producers_beforeb p [] (generations p) && levels_okb p.
+
+
+(* the main theorems with the decidable order conditions *)
+Lemma pipeline_order_ok_spec p :
+  NoDup (flat_map fouts p) -> pipeline_order_ok p = true ->
+  topo_list p /\ producers_before p [] (generations p) /\ (forall f, In f p -> In f (concat (generations p))).
+Proof.
+  intros Hnd H. unfold pipeline_order_ok in H. apply andb_true_iff in H as [H H3]. apply andb_true_iff in H as [H1 H2].
+  split; [now apply topo_listb_ok|]. split; [|now apply levels_okb_ok].
+  apply producers_beforeb_ok; [now apply NoDup_flat_uniq | intros g [] | | exact H2].
+  intros gen f Hg Hf. eapply generations_In; eauto.
+Qed.
+
+Lemma request_ok_nodup p inputs : request_ok p inputs = true -> NoDup (flat_map fouts p).
+Proof.
+  unfold request_ok. intros H. apply andb_true_iff in H as [H _]. apply andb_true_iff in H as [_ H].
+  apply nodup_str_NoDup in H. now destruct (NoDup_app_inv _ _ H).
+Qed.
+
+Theorem full_run_on_substore_denotes body user p inputs D rs :
+  body_arity body ->
+  request_ok p inputs = true -> denote_run body p inputs user = Ok D -> pipeline_order_ok p = true ->
+  (forall g, In g p -> fsub body p inputs D rs g) ->
+  exists ps, map_run_sel body p inputs user None rs = ROk ps
+    /\ (forall f, In f p -> ffull body p inputs D (p_store ps) f)
+    /\ (forall f o, In f p -> In o (fouts f) -> dict_get (p_out ps) o = dict_get (d_out D) o).
+Proof.
+  intros Ha Hr Hd Ho Hs.
+  destruct (pipeline_order_ok_spec p (request_ok_nodup p inputs Hr) Ho) as [A [B C]].
+  exact (run_from_substore_denotes body user p inputs D rs Ha Hr Hd A B C Hs).
+Qed.
+
+Theorem map_run_sel_is_map_run body user p inputs D :
+  body_arity body ->
+  request_ok p inputs = true -> denote_run body p inputs user = Ok D -> pipeline_order_ok p = true ->
+  exists st ps,
+    map_run body p inputs user = Ok st
+    /\ map_run_sel body p inputs user None empty_store = ROk ps
+    /\ map (fun x => (fst (fst x), snd (fst x))) (r_out st) = d_out D
+    /\ map (fun x => (fst (fst x), snd x)) (r_out st) = d_out D
+    /\ (forall f o, In f p -> In o (fouts f) -> dict_get (p_out ps) o = dict_get (d_out D) o)
+    /\ (forall f, In f p -> ffull body p inputs D (p_store ps) f).
+Proof.
+  intros Ha Hr Hd Ho.
+  destruct (pipeline_order_ok_spec p (request_ok_nodup p inputs Hr) Ho) as [A [B C]].
+  exact (map_run_sel_empty_is_map_run body user p inputs D Ha Hr Hd A B C).
 Qed.
